@@ -68,9 +68,14 @@ type revSpec struct {
 	thoroughOnly bool
 }
 
+// exclSpec is one fetch-filter configuration of the repository (lfs.fetchexclude / lfs.fetchinclude).
+// Only lfs.fetchexclude is documented to restrict fsck (docs/man/git-lfs-fsck.adoc); lfs.fetchinclude
+// must not change what fsck examines, so the model ignores `include` except for labelling a miss.
 type exclSpec struct {
-	pattern string          // value of lfs.fetchexclude ("" = unset)
-	paths   map[string]bool // paths of this shape the pattern matches (gitignore semantics; by construction)
+	pattern  string          // value of lfs.fetchexclude ("" = unset)
+	paths    map[string]bool // paths of this shape the pattern matches (gitignore semantics; by construction)
+	include  string          // value of lfs.fetchinclude ("" = unset)
+	incPaths map[string]bool // LFS paths of this shape inside the include pattern (by construction; some inside, some outside)
 }
 
 type shape struct {
@@ -81,6 +86,7 @@ type shape struct {
 	nslots   int
 	revs     []revSpec
 	excl     []exclSpec
+	inclCfgs []exclSpec    // configurations that set lfs.fetchinclude (alone, and together with lfs.fetchexclude)
 	objForms [][]form      // form assignments used by the "objects" slice (first = all canonical)
 	attrVars []attrVariant // sizes/layouts of the .gitattributes files explored by the "attrsize" slice (nil: none)
 	note     string
@@ -261,7 +267,8 @@ func shapes() []shape {
 		objects:  []int{0, 1, 2, 3, 4}, // 4 is referenced by nothing
 		nslots:   3,
 		revs:     append(two(), revSpec{arg: "main", commits: []int{1}, base: -1, thoroughOnly: true}),
-		excl:     []exclSpec{{"", nil}, {"/b.bin", set("b.bin")}},
+		excl:     []exclSpec{{pattern: "", paths: nil}, {pattern: "/b.bin", paths: set("b.bin")}},
+		inclCfgs: []exclSpec{{include: "/a.bin", incPaths: set("a.bin")}, {pattern: "/b.bin", paths: set("b.bin"), include: "/c.bin", incPaths: set("c.bin")}},
 		objForms: [][]form{allCanon(3), {fCRLF, fCanon, fRaw}},
 	})
 
@@ -276,7 +283,8 @@ func shapes() []shape {
 		nslots:  3,
 		revs:    two(),
 		// "/a.bin" exempts a.bin but NOT sub/d.bin, which references the same object; "sub/" the other way round.
-		excl:     []exclSpec{{"", nil}, {"sub/", set("sub/d.bin")}, {"/a.bin", set("a.bin")}},
+		excl:     []exclSpec{{pattern: "", paths: nil}, {pattern: "sub/", paths: set("sub/d.bin")}, {pattern: "/a.bin", paths: set("a.bin")}},
+		inclCfgs: []exclSpec{{include: "sub/", incPaths: set("sub/d.bin")}, {pattern: "sub/", paths: set("sub/d.bin"), include: "/b.bin", incPaths: set("b.bin")}},
 		objForms: [][]form{allCanon(3), {fCanon, fCanon, fCRLF}},
 	})
 
@@ -291,7 +299,8 @@ func shapes() []shape {
 		objects:  []int{0, 1, 2, 3},
 		nslots:   3,
 		revs:     two(),
-		excl:     []exclSpec{{"", nil}, {"/e.bin", set("e.bin")}},
+		excl:     []exclSpec{{pattern: "", paths: nil}, {pattern: "/e.bin", paths: set("e.bin")}},
+		inclCfgs: []exclSpec{{include: "/a.bin", incPaths: set("a.bin")}, {pattern: "/e.bin", paths: set("e.bin"), include: "/a.bin", incPaths: set("a.bin")}},
 		objForms: [][]form{allCanon(3), {fCRLF, fRaw, fCanon}},
 	})
 
@@ -305,7 +314,8 @@ func shapes() []shape {
 		objects:  []int{0, 1, 2},
 		nslots:   3,
 		revs:     two(),
-		excl:     []exclSpec{{"", nil}, {"*.dat", set("x.dat", "y.dat")}},
+		excl:     []exclSpec{{pattern: "", paths: nil}, {pattern: "*.dat", paths: set("x.dat", "y.dat")}},
+		inclCfgs: []exclSpec{{include: "*.bin", incPaths: set("a.bin")}, {pattern: "*.dat", paths: set("x.dat", "y.dat"), include: "/x.dat", incPaths: set("x.dat")}},
 		objForms: [][]form{allCanon(3), {fCanon, fRaw, fNoNL}},
 	})
 
@@ -329,7 +339,8 @@ func shapes() []shape {
 		objects:  []int{0, 1, 2, 4, 5},
 		nslots:   3,
 		revs:     two(),
-		excl:     []exclSpec{{"", nil}, {"/sub", set("sub/x.dat")}},
+		excl:     []exclSpec{{pattern: "", paths: nil}, {pattern: "/sub", paths: set("sub/x.dat")}},
+		inclCfgs: []exclSpec{{include: "/sub", incPaths: set("sub/x.dat")}, {pattern: "/sub", paths: set("sub/x.dat"), include: "/a.bin", incPaths: set("a.bin")}},
 		objForms: [][]form{allCanon(3), {fAlias, fCRLF, fRaw}},
 		attrVars: []attrVariant{
 			{name: "root1023", rootSize: 1023}, {name: "root1024", rootSize: 1024}, {name: "root1025", rootSize: 1025}, {name: "root4000", rootSize: 4000},
@@ -359,7 +370,8 @@ func shapes() []shape {
 			{arg: "HEAD~2..HEAD~1", commits: []int{1}, base: 0, thoroughOnly: true},
 			{arg: "HEAD..HEAD", commits: nil, base: 2, thoroughOnly: true},
 		},
-		excl:     []exclSpec{{"", nil}, {"/a.bin", set("a.bin")}},
+		excl:     []exclSpec{{pattern: "", paths: nil}, {pattern: "/a.bin", paths: set("a.bin")}},
+		inclCfgs: []exclSpec{{include: "/c.bin", incPaths: set("c.bin")}, {pattern: "/a.bin", paths: set("a.bin"), include: "/b.bin", incPaths: set("b.bin")}},
 		objForms: [][]form{allCanon(3), {fRaw, fCRLF, fCanon}},
 	})
 	for i := range r {
@@ -597,6 +609,8 @@ type expectation struct {
 	objWhy map[string]string
 	// oid -> true when an in-scope path matching lfs.fetchexclude references it as well
 	objAlsoExcluded map[string]bool
+	// oid -> true when a demanding (tracked, non-exempt) in-scope path lies inside lfs.fetchinclude (only used to label a miss)
+	objInsideInclude map[string]bool
 	// pointer problems
 	ncMust, ncMay   map[string]string // git blob sha -> lfs oid
 	rawMust, rawMay map[string]bool   // path
@@ -626,7 +640,7 @@ func raise(m map[string]level, why map[string]string, oid string, l level, reaso
 // Paths matching lfs.fetchexclude and index-only entries are lvMay.
 func expect(sh *shape, assign []form, info *baseInfo, rv revSpec, ex exclSpec, doObjects, doPointers bool) *expectation {
 	initContents()
-	x := &expectation{obj: map[string]level{}, objWhy: map[string]string{}, objAlsoExcluded: map[string]bool{}, ncMust: map[string]string{}, ncMay: map[string]string{},
+	x := &expectation{obj: map[string]level{}, objWhy: map[string]string{}, objAlsoExcluded: map[string]bool{}, objInsideInclude: map[string]bool{}, ncMust: map[string]string{}, ncMay: map[string]string{},
 		rawMust: map[string]bool{}, rawMay: map[string]bool{}, rawPairs: map[string]bool{}, rawIndexOnly: map[string]bool{}, ncWhy: map[string]string{}, rawWhy: map[string]string{}}
 	refsOf := func(t tree) map[string]bool {
 		m := map[string]bool{}
@@ -662,6 +676,9 @@ func expect(sh *shape, assign []form, info *baseInfo, rv revSpec, ex exclSpec, d
 					raise(x.obj, x.objWhy, oid, lvMay, "range-unchanged")
 				default:
 					raise(x.obj, x.objWhy, oid, lvMust, src)
+					if ex.incPaths[e.path] {
+						x.objInsideInclude[oid] = true
+					}
 				}
 			}
 		}
